@@ -64,11 +64,12 @@ def main(argv):
             from sa import selfval
             selfval.run_for(ck, pid)
         return ck.finish()
-    except Unmodelled as e:
-        # A construct outside the fragment the checker decides. On the tree whose digest was frozen at the last clean run this
-        # means the checker itself is broken (exit 2). On any other tree the code under analysis has changed into something for
-        # which the property's obligations can no longer be discharged: that is reported as an unproven obligation (a violation
-        # of the static argument), naming the construct, rather than silently skipped.
+    except (Unmodelled, AnalysisError) as e:
+        # A construct outside the fragment the checker decides, or a construct the rules are anchored in that is no longer
+        # there. On the tree whose digest was frozen at the last clean run this means the checker itself is broken (exit 2).
+        # On any other tree the code under analysis has changed into something for which the property's obligations can no
+        # longer be discharged: that is reported as an unproven obligation (a violation of the static argument), naming the
+        # construct, rather than silently skipped or left without a verdict.
         frozen = None
         try:
             with open(os.path.join(os.path.dirname(os.path.abspath(__file__)), "floors.json")) as f:
@@ -81,14 +82,16 @@ def main(argv):
             cur = None
         if frozen is not None and cur is not None and cur != frozen and not replay:
             ck2 = Check(pid, tier, Repo(), seed)
-            ck2.explanation = "The analysis stopped at a construct it cannot normalise; the obligations of the property are therefore not discharged for this tree."
+            if isinstance(e, Unmodelled):
+                ck2.explanation = "The analysis stopped at a construct it cannot normalise; the obligations of the property are therefore not discharged for this tree."
+                ck2.ob("UNPROVEN", "analysis", "construct outside the decidable fragment", str(e).split(" at ")[-1] if " at " in str(e) else "pyvaporation/",
+                       False, "the changed code uses a construct for which the property's identities cannot be decided: %s" % e)
+            else:
+                ck2.explanation = "A construct the rules of this property are anchored in is no longer found; the obligations of the property are therefore not discharged for this tree."
+                ck2.ob("UNPROVEN", "analysis", "anchor of the property's rules is missing", "pyvaporation/",
+                       False, "the changed code no longer contains what the property's argument rests on: %s" % e)
             ck2.technique = "n/a (unproven)"
-            ck2.ob("UNPROVEN", "analysis", "construct outside the decidable fragment", str(e).split(" at ")[-1] if " at " in str(e) else "pyvaporation/",
-                   False, "the changed code uses a construct for which the property's identities cannot be decided: %s" % e)
             return ck2.finish()
-        print("ANALYSIS-ERROR property=%s %s: %s" % (pid, type(e).__name__, e))
-        return 2
-    except AnalysisError as e:
         print("ANALYSIS-ERROR property=%s %s: %s" % (pid, type(e).__name__, e))
         return 2
     except Exception as e:  # the checker itself failed: never a verdict
